@@ -29,6 +29,11 @@ BASES = [
 # scheme-less network paths - "has a scheme" is not "has an authority"
 BASES += [pre + pth for pre in ("foo:", "file://", "mailto:", "x-app:", "//h", "git://u@h:1", "file:") for pth in ("", "/", "/a", "/a/", "/a/b", "/a.b", "/a//b", "a", "a/b", "a/")
           if not (pre.startswith(("//", "git:")) and pth and not pth.startswith("/"))]
+# SELF-SIMILAR names: the text of the suffix occurs earlier in the name (repeated / nested extensions), the name repeats a directory
+# segment, the stem occurs inside the suffix - search-and-replace on the name or on the whole path hits the wrong occurrence
+BASES += ["http://example.com/dir/data.json.js", "http://example.com/archive.tar.tar", "/srv/page.htm.html.htm", "rel/a.b.b", "http://example.com/звіт.пдф.пдф", "a.a.a", "http://h/.b.b",
+          "http://h/a.b/a.b", "http://h/x.y/x.y/x.y", "a.b/a.b", "http://h/a%2Eb.c.c", "http://h/a.tar.gz/b.tar.gz", "http://h/.gz/x.gz", "http://h/gz/x.gz.gz", "foo:x.y.y", "http://h/a.b.b?a.b.b#.b",
+          "http://h/%2Ea.%2Ea", "http://h/a .b .b ", "http://h/..b..b"]
 NAMES = ["x", "x.y", ".x", "x.", "..x", "x..", "a b", "a%20b", "a%2Fb", "%", "%25", "é", "ü.ö", "a+b", "a:b", "a@b", "a;b=c", "a,b", "a?b", "a#b", "~", "a\tb",
          "😀", "x.tar.gz", "...", "a%zz", "%2E", "%2e%2e", " ", "\x00"]
 SUFFIXES = [".x", ".tar", ".a b", ".é", ".%20", ".a.b", ".tar.gz", ".a.", ".", "", ".x/y", "x", ".😀", ".%", "..", ".a%2Fb", ".#?"]
